@@ -622,6 +622,39 @@ def check_polyroots_order(run, ix):
     for g in f.nested:
         if any(isinstance(c, ast.Compare) and 'tol' in norm(c) for c in ast.walk(g.node)):
             rankers.add(g.name)
+    # the tolerance of a rank has an absolute floor: the noise of the iteration on Re and Im is absolute (eps times the
+    # scale of the roots), so a threshold  K*tol*|value|  without `max(1, ...)` falls below the noise for small |Im| and
+    # the members of two conjugate pairs with equal small |Im| interleave (seed C29-6)
+    def _factors(e):
+        if isinstance(e, ast.BinOp) and isinstance(e.op, ast.Mult):
+            return _factors(e.left) + _factors(e.right)
+        return [e]
+
+    def _floored(e):
+        for t in _factors(e):
+            if isinstance(t, ast.Constant) and isinstance(t.value, (int, float)) and t.value > 0:
+                continue
+            if isinstance(t, ast.Name) and ('tol' in t.id or 'eps' in t.id):
+                continue
+            if isinstance(t, ast.Call) and norm(t.func) == 'max' and \
+                    any(isinstance(a, ast.Constant) and isinstance(a.value, (int, float)) and a.value > 0 for a in t.args):
+                continue
+            return t
+        return None
+    for g in f.nested:
+        if g.name not in rankers:
+            continue
+        for c in ast.walk(g.node):
+            if isinstance(c, ast.Compare) and 'tol' in norm(c) and len(c.ops) == 1 and isinstance(c.ops[0], (ast.Gt, ast.GtE)):
+                t = _floored(c.comparators[0])
+                if t is None:
+                    run.ok('R-P3', '%s: the rank tolerance `%s` has an absolute floor' % (g.name, norm(c.comparators[0], 50)))
+                else:
+                    run.fail(F('R-P3', POLY, 'polyroots.%s' % g.name, c,
+                               'the rank tolerance `%s` is proportional to `%s` and vanishes with it: the noise of the iteration '
+                               'on a small |Im| is absolute, so two conjugate pairs with equal small |Im| are ranked by noise '
+                               'and interleave (roots +-1 +- 0.001j come back as -1-0.001j, 1-0.001j, 1+0.001j, -1+0.001j)'
+                               % (norm(c.comparators[0], 50), norm(t, 30))))
     ranked = {}
     for st in _walk_own(f.node):
         if isinstance(st, ast.Assign) and isinstance(st.value, ast.Call) and norm(st.value.func) in rankers:
